@@ -4,7 +4,7 @@
      Dictionary => remove every entry whose value is Reference(id)
      _          => {}                     -- stream dictionaries and top-level references untouched
    and the trailer's own entries are never looked at (traverse_objects applies the action to its values). *)
-From LV Require Import Base.Bytes Model.Obj Model.Traverse Model.Edit.
+From LV Require Import Base.Bytes Model.Obj Model.DocQ Model.Traverse Model.Edit.
 
 Fixpoint strip_v0 (id : oid) (o : obj) : obj :=
   match o with
@@ -33,3 +33,60 @@ Definition delete_object_v0 (d : doc) (id : oid) : option (doc * option obj) :=
   | Some (tr', m', _) => Some (with_graph d tr' (remove m' id), lookup m' id)
   | None => None
   end.
+
+(* get_or_create_resources of src/creator.rs before the repair of C11-resources-shadow: a page without a Resources
+   entry got an EMPTY dictionary, which by the nearest-ancestor rule hides the inherited one (kept for the refutation
+   theorem only). *)
+Definition get_or_create_resources_v0 (d : doc) (page : oid) : doc * option res_loc :=
+  let m := d_objects d in
+  match get_object m page with
+  | Some (ODict pd) =>
+    match (if dict_has pd K_Resources then as_ref (dict_get pd K_Resources) else None) with
+    | Some rid => (d, option_map RLObj (get_object_mut_id m rid))
+    | None =>
+      match get_object_mut_id m page with
+      | Some t =>
+        match lookup m t with
+        | Some (ODict td) =>
+          let td' := if dict_has td K_Resources then td else dict_set td K_Resources (ODict []) in
+          (with_objs d (update m t (ODict td')), Some (RLEntry t))
+        | _ => (d, None)
+        end
+      | None => (d, None)
+      end
+    end
+  | _ => (d, None)
+  end.
+
+(* add_xobject / add_graphics_state on top of it (the text of Model/Edit.v [add_resource], unchanged by the repair) *)
+Definition add_resource_v0 (follow : bool) (key : bytes) (d : doc) (page : oid) (nm : bytes) (x : oid) : doc * out :=
+  let '(d1, loc) := get_or_create_resources_v0 d page in
+  match loc with
+  | None => (d1, OOk)
+  | Some loc =>
+    let m1 := d_objects d1 in
+    match loc_get m1 loc with
+    | Some (ODict rd) =>
+      let rd1 := if dict_has rd key then rd else dict_set rd key (ODict []) in
+      let m2 := loc_set m1 loc (ODict rd1) in
+      let d2 := with_objs d1 m2 in
+      let entry := ORef (fst x) (snd x) in
+      match dict_get rd1 key with
+      | Some (ODict xd) => (with_objs d1 (loc_set m2 loc (ODict (dict_set rd1 key (ODict (dict_set xd nm entry))))), OOk)
+      | Some (ORef i g) =>
+        if follow then
+          match get_object m2 (i, g), get_object_mut_id m2 (i, g) with
+          | Some _, Some t =>
+            match lookup m2 t with
+            | Some (ODict xd) => (with_objs d1 (update m2 t (ODict (dict_set xd nm entry))), OOk)
+            | _ => (d2, OErr)
+            end
+          | _, _ => (d2, OErr)
+          end
+        else (d2, OErr)
+      | _ => (d2, OErr)
+      end
+    | _ => (d1, OOk)
+    end
+  end.
+Definition add_xobject_v0 := add_resource_v0 true K_XObject.
